@@ -115,7 +115,12 @@ func drawLimbs(t *rapid.T, label string, nl int) *big.Int {
 // drawStructured256 draws a 256-bit pattern: limb alphabet, 2^k (+-1), or
 // 2^a - 2^b.
 func drawStructured256(t *rapid.T, label string) *big.Int {
-	switch rapid.IntRange(0, 3).Draw(t, label+"SKind") {
+	switch rapid.IntRange(0, 5).Draw(t, label+"SKind") {
+	case 4, 5:
+		// alternating runs of one and zero bits (squares and products of such
+		// values carry through whole limbs)
+		runs := rapid.SliceOfN(rapid.IntRange(1, 200), 1, 6).Draw(t, label+"SRuns")
+		return runsValue(runs, rapid.Bool().Draw(t, label+"SRunsFirst"), 256)
 	case 0:
 		v := pw(uint(rapid.IntRange(0, 255).Draw(t, label+"SPow")))
 		return v.Add(v, big.NewInt(int64(rapid.IntRange(-1, 1).Draw(t, label+"SAdj"))))
